@@ -28,4 +28,4 @@ Definition sk_create_location_index : string := "if len(sourceInformation) > 0 {
 Definition sk_add_elements_of_loc : string := "call handleSingleOrMultipleNodes".
 Definition sk_handle_single_or_multiple : string := "typeswitch { case types.ObjectMap: call operation | case []any: range v { typeswitch { case types.ObjectMap: call operation } } | case default:  }".
 Definition sk_location : string := "if exists { return } else { return }".
-Definition sk_normalize : string := "call independentDocuments; if ok { call make; call len; call make; call len; range documents { call Add }; call Wait; range failures { if failure != nil { call panic } }; return call union }; return call flatten".
+Definition sk_normalize : string := "call NewJsonLdProcessor; call NewJsonLdOptions; call make; call Flatten; if err != nil { call panic }; return".
